@@ -139,7 +139,7 @@ func Run(in, out, progress string, start int) int {
 		emit(map[string]interface{}{"ev": "T", "sc": 0, "sig": "total/corpus"})
 		for _, dn := range []string{"bam", "bgzf"} {
 			for i, data := range Corpora()[dn] {
-				r := call(decs[dn].Run, data, 4*time.Second)
+				r := call(decs[dn].Run, data, 20*time.Second)
 				counts["corpus-"+r.outcome]++
 				ev := map[string]interface{}{"ev": "corpus", "sc": 0, "dec": dn, "idx": i, "outcome": r.outcome, "detail": r.detail, "len": len(data)}
 				if r.outcome == "panic" || r.outcome == "hang" {
@@ -170,7 +170,7 @@ func Run(in, out, progress string, start int) int {
 			if applied == 0 {
 				r = result{outcome: "unapplied"}
 			} else {
-				r = call(d.Run, data, 4*time.Second)
+				r = call(d.Run, data, 20*time.Second)
 			}
 			counts[r.outcome]++
 			ev := map[string]interface{}{"ev": "case", "sc": k + 1, "dec": c.Dec, "field": c.Field, "inst": c.Inst, "mut": c.Mut,
